@@ -367,11 +367,27 @@ func VerifC16Truncate() {
 			}
 			if n >= 3 {
 				nd.Assert(utf8.RuneCountInString(r) <= maxInt(n, 0) || r == txt, "truncate-length-in-characters")
+				if n < runes {
+					nd.Assert(utf8.RuneCountInString(r) == n && r[len(r)-3:] == "...", "truncate-exact-length")
+				}
 			}
 			nd.Assert(utf8.ValidString(r), "truncate-valid-utf8")
 		}
 	case 1:
 		if r, ok := c16EvalStr("s | truncate: n, '…'", b, "truncate-ellipsis"); ok {
+			// exact reference: the first n-1 characters plus the one-character ellipsis
+			if n < runes && n >= 1 {
+				want := ""
+				k := 0
+				for _, c := range txt {
+					if k == n-1 {
+						break
+					}
+					want += string(c)
+					k++
+				}
+				nd.Assert(r == want+"…", "truncate-ellipsis-reference")
+			}
 			if n >= runes {
 				nd.Assert(r == txt, "truncate-ellipsis-unchanged-when-fits")
 			}
